@@ -151,3 +151,14 @@ def add_derived(df, ops, seed=0):
             x = src + rs.normal(size=len(src)) * (np.std(src) or 1.0) * 1e-3
         df['d%d_%s' % (i, k)] = x
     return df
+
+
+def variant_table(df, seed):
+    """Another table with the same schema but different marginals and (shuffled) dependence - used to give a model
+    object a history (an earlier fit) before the fit under test."""
+    rs = np.random.RandomState(seed)
+    other = df.copy()
+    for c in list(df.columns):
+        v = other[c].to_numpy().astype(float)
+        other[c] = rs.permutation(v) * rs.uniform(0.5, 2.0) + rs.normal() * (np.std(v) + 1.0)
+    return other
